@@ -630,6 +630,245 @@ pub fn multiseg_cases(th: bool) -> Vec<Case> {
     v
 }
 
+// ---------------------------------------------------------------------------
+// junction family: what kind of chunk sits where a new mapping joins an existing segment
+
+/// A constructed heap state whose segment boundary chunk (first chunk for a mapping placed directly
+/// below = prepend, `top` for a mapping placed directly above = extend) is of a known kind.
+pub struct Junction {
+    pub name: String,
+    pub seed: Vec<Op>,
+    /// placement of the mmaps of the seed; the mmap of the big request gets `big_policy`
+    pub script: Vec<Policy>,
+    pub big_policy: Policy,
+    slots: Slots,
+    /// the block whose free meets the junction chunk (the neighbour behind a free first chunk, the in-use
+    /// first chunk itself, the block in front of top)
+    key: Option<usize>,
+    /// size of the junction chunk (for top kinds: of top) and of the key neighbour's chunk
+    j: usize,
+    nbr: usize,
+    pub expect: Ev,
+}
+
+pub fn junctions() -> Vec<Junction> {
+    use Policy::*;
+    let mut v = Vec::new();
+    let first_top = 65536 - 80; // top of a fresh 64 KiB segment
+    // (name, builder -> (key, junction chunk size, neighbour chunk size))
+    type Build = fn(&mut B) -> (Option<usize>, usize, usize);
+    let prepend_kinds: Vec<(&str, Build)> = vec![
+        ("first-chunk-in-use", |b| {
+            let a = b.m(200, 8);
+            b.m(24, 8);
+            b.m(24, 8);
+            (Some(a), 208, 208)
+        }),
+        ("first-chunk-free-in-small-bin", |b| {
+            let a = b.m(200, 8);
+            let g = b.m(24, 8);
+            b.m(24, 8);
+            b.f(a);
+            (Some(g), 208, 32)
+        }),
+        ("first-chunk-free-in-tree-bin", |b| {
+            let a = b.m(1000, 8);
+            let g = b.m(24, 8);
+            b.m(24, 8);
+            b.f(a);
+            (Some(g), 1008, 32)
+        }),
+        ("first-chunk-was-dv", |b| {
+            // free, smaller malloc that splits, free: remainder and freed chunk merge into dv at the segment base
+            let x = b.m(200, 8);
+            let g = b.m(24, 8);
+            b.m(24, 8);
+            b.f(x);
+            let y = b.m(100, 8);
+            b.f(y);
+            (Some(g), 208, 32)
+        }),
+        ("first-chunk-was-large-dv", |b| {
+            let x = b.m(2000, 8);
+            let g = b.m(24, 8);
+            b.m(24, 8);
+            b.f(x);
+            let y = b.m(100, 8);
+            b.f(y);
+            (Some(g), 2016, 32)
+        }),
+        ("first-chunk-in-use-dv-behind-it", |b| {
+            let x = b.m(200, 8);
+            b.m(24, 8);
+            b.m(24, 8);
+            b.f(x);
+            let y = b.m(100, 8);
+            (Some(y), 112, 112)
+        }),
+        ("first-chunk-was-top", |b| {
+            let a = b.m(200, 8);
+            b.f(a);
+            (None, 65536 - 80, 0)
+        }),
+    ];
+    for (name, build) in &prepend_kinds {
+        // the segment is the head segment (holds top) ...
+        let mut b = B::new(Slots::default());
+        let (key, j, nbr) = build(&mut b);
+        v.push(Junction { name: format!("prepend:{name}"), seed: b.ops.clone(), script: vec![TopDown], big_policy: Below, slots: b.s.clone(), key, j, nbr, expect: Ev::MapBelowAdjacent });
+        // ... or an older segment: a second segment above it (one page apart) becomes the head, B then has room only below the old one
+        let mut b = B::new(Slots::default());
+        let (key, j, nbr) = build(&mut b);
+        b.m(70_000, 8);
+        v.push(Junction {
+            name: format!("prepend-to-older-segment:{name}"),
+            seed: b.ops.clone(),
+            script: vec![TopDown, DisjointUp],
+            big_policy: Below,
+            slots: b.s.clone(),
+            key,
+            j,
+            nbr,
+            expect: Ev::MapBelowAdjacent,
+        });
+    }
+    let extend_kinds: Vec<(&str, usize)> = vec![("top-large", 200), ("top-small", 65432 - 304), ("top-exhausted", 65432)];
+    for (name, first) in extend_kinds {
+        let mut b = B::new(Slots::default());
+        let a = b.m(first, 8);
+        let used = (first + 8 + 15) & !15;
+        v.push(Junction {
+            name: format!("extend:{name}"),
+            seed: b.ops.clone(),
+            script: vec![TopDown],
+            big_policy: Above,
+            slots: b.s.clone(),
+            key: Some(a),
+            j: first_top - used,
+            nbr: used,
+            expect: Ev::MapAboveAdjacent,
+        });
+    }
+    {
+        // mapping directly above an older segment while top lives elsewhere: a new segment that touches the old one's end
+        let mut b = B::new(Slots::default());
+        let a = b.m(200, 8);
+        b.m(70_000, 8);
+        v.push(Junction {
+            name: "above-older-segment(touching,new-segment)".into(),
+            seed: b.ops.clone(),
+            script: vec![TopDown, Disjoint],
+            big_policy: Above,
+            slots: b.s.clone(),
+            key: Some(a),
+            j: 0,
+            nbr: 208,
+            expect: Ev::MapAboveAdjacent,
+        });
+    }
+    v
+}
+
+/// request sizes that force an mmap and leave, of the new mapping, a remainder that is minimal (96 bytes),
+/// small (tree-bin sized, 304 bytes) or large (about 31 KiB)
+pub const JUNCTION_SIZES: [usize; 3] = [2 * 65536 - 104, 2 * 65536 - 104 - 208, 100_000];
+
+#[derive(Clone, Copy, PartialEq, Eq, Debug)]
+enum JAct {
+    FreeKey,
+    FreeBig,
+    MallocMerged,
+    MallocSmall,
+    MallocRemainder,
+    MallocJunctionPlusNeighbour,
+    MallocJunction,
+}
+
+pub fn junction_cases(th: bool) -> Vec<(String, Case)> {
+    let max_len = if th { 5 } else { 4 };
+    let mut out = Vec::new();
+    for jn in junctions() {
+        for &big in &JUNCTION_SIZES {
+            let nb = (big + 8 + 15) & !15;
+            let asize = (nb + 96 + 65535) & !65535;
+            let q = asize - nb; // what is left of the new mapping
+            let mut acts = vec![JAct::FreeBig, JAct::MallocMerged, JAct::MallocSmall, JAct::MallocRemainder];
+            if jn.key.is_some() {
+                acts.insert(0, JAct::FreeKey);
+            }
+            if jn.j >= 32 {
+                acts.push(JAct::MallocJunction);
+                if jn.nbr > 0 {
+                    acts.push(JAct::MallocJunctionPlusNeighbour);
+                }
+            }
+            let mut seqs: Vec<Vec<JAct>> = Vec::new();
+            fn rec(cur: &mut Vec<JAct>, acts: &[JAct], max_len: usize, out: &mut Vec<Vec<JAct>>) {
+                if !cur.is_empty() {
+                    out.push(cur.clone());
+                }
+                if cur.len() == max_len {
+                    return;
+                }
+                for &a in acts {
+                    if matches!(a, JAct::FreeKey | JAct::FreeBig) && cur.contains(&a) {
+                        continue;
+                    }
+                    cur.push(a);
+                    rec(cur, acts, max_len, out);
+                    cur.pop();
+                }
+            }
+            rec(&mut Vec::new(), &acts, max_len, &mut seqs);
+            seqs.sort_by_key(|s| s.len());
+            for sq in seqs {
+                let mut b = B::new(jn.slots.clone());
+                let bigslot = b.m(big, 8);
+                for a in &sq {
+                    match a {
+                        JAct::FreeKey => b.f(jn.key.unwrap()),
+                        JAct::FreeBig => b.f(bigslot),
+                        JAct::MallocMerged => {
+                            b.m((jn.j + q).saturating_sub(8 + if jn.name.contains("top") { 32 } else { 0 }).max(1), 8);
+                        }
+                        JAct::MallocSmall => {
+                            b.m(40, 8);
+                        }
+                        JAct::MallocRemainder => {
+                            b.m(q - 8, 8);
+                        }
+                        JAct::MallocJunctionPlusNeighbour => {
+                            b.m(jn.j + jn.nbr - 8, 8);
+                        }
+                        JAct::MallocJunction => {
+                            b.m(jn.j - 8, 8);
+                        }
+                    }
+                }
+                let mut script = jn.script.clone();
+                script.push(jn.big_policy);
+                out.push((
+                    jn.name.clone(),
+                    Case {
+                        phase: "junction",
+                        seed_name: jn.name.clone(),
+                        seed: jn.seed.clone(),
+                        ops: b.ops,
+                        script,
+                        default_policy: Policy::TopDown,
+                        refuse: vec![],
+                        sticky: false,
+                        loop_ops: vec![],
+                        loop_max: 0,
+                        post: vec![],
+                    },
+                ));
+            }
+        }
+    }
+    out
+}
+
 pub fn placement(args: &Args) -> Report {
     let th = args.thorough;
     let dl = dense_limit(th);
@@ -688,7 +927,36 @@ pub fn placement(args: &Args) -> Report {
             r
         }));
     }
+    let n_junction = junction_cases(th).len();
+    let jsh = if th { 64usize } else { 32 };
+    for sh in 0..jsh {
+        items.push(isolated(format!("junction-{sh}"), move || {
+            let mut r = Report::new();
+            let mut w = World::new(dl);
+            let expect: std::collections::HashMap<String, Ev> = junctions().into_iter().map(|j| (j.name, j.expect)).collect();
+            for (i, (name, c)) in junction_cases(th).into_iter().enumerate() {
+                if i % jsh != sh {
+                    continue;
+                }
+                r.eval();
+                r.nontrivial_unique();
+                run_case(&mut w, &c, &mut r, false);
+                // the kind is known by construction; what the kernel saw confirms that the big request's mapping joined the segment
+                let joined = w.k.join_events.get(c.script.len() - 1).copied();
+                r.outcome(&format!("junction:{name}{}", if joined == Some(expect[&name]) { "" } else { ":MAPPING-DID-NOT-JOIN" }));
+                if i % 9973 == 0 {
+                    r.sample(c.to_json());
+                }
+            }
+            r
+        }));
+    }
     let mut r = run_isolated(items, &args.out, "C03");
+    for j in junctions() {
+        if r.outcomes.get(&format!("junction:{}", j.name)).copied().unwrap_or(0) == 0 {
+            r.cap(format!("vacuity: junction kind {} never reached with the mapping joined to the segment", j.name));
+        }
+    }
     if r.outcomes.get("release-pass-released>=2-segments").copied().unwrap_or(0) == 0 {
         r.cap("vacuity: no operation ever made the allocator release two or more segments in one pass (multi-segment scenarios not reached)");
     }
@@ -702,11 +970,18 @@ pub fn placement(args: &Args) -> Report {
          one case = (history, complete script), generated once. (2) multi-segment release scenarios ({n_multi} cases, each generated once): 3 and 4 heap segments that do not \
          touch (placement all-D, all-U, alternating D/U), each owning one block of 300 000 bytes or 3 MiB (all 2^n size vectors), all blocks freed in every one of the n! orders, then \
          a release-pass trigger: a 3 MiB malloc+free (trim){}, then further allocations; oracle as everywhere (no fault, live blocks intact, later allocations succeed). \
-         Vacuity guard: some operation must release >= 2 segments in one pass.",
+         Vacuity guard: some operation must release >= 2 segments in one pass. (3) junction family ({n_junction} cases, each generated once): constructed heap states whose \
+         segment-boundary chunk is of a known kind ({}), x a request of {JUNCTION_SIZES:?} bytes whose mapping the kernel puts directly below (prepend) / directly above (extend) that \
+         segment, x every sequence of 1..={} follow-up actions from {{free the block next to the junction chunk, free the big block, malloc exactly the merged chunk, malloc 40, malloc the \
+         new mapping's remainder, malloc the old junction chunk's size, malloc junction chunk + neighbour}} (each free at most once); full shadow oracle after every operation; one outcome \
+         class per junction kind, confirmed by the kernel-side observation that the mapping joined the segment.",
+        junctions().iter().map(|j| j.name.clone()).collect::<Vec<_>>().join(", "),
+        if th { 5 } else { 4 },
         al.describe(),
         if th { " or, second variant, up to 4200 repetitions of malloc(1000) malloc(24) free free until the release_checks countdown (4095 binned large frees) fires" } else { "" }
     );
     r.bound("multiseg_cases", n_multi);
+    r.bound("junction_cases", n_junction);
     r.bound("depth", depth);
     r.bound("sizes", json!(sizes));
     r.bound("policies", 5);
